@@ -241,8 +241,8 @@ def tf_is_identity(tf):
 
 
 def tf_breaks_answer_symmetry(tf):
-    """True when Alice's and Bob's answers are relabelled differently (the transformed named game is no longer
-    won by constant equal answers / symmetric under exchanging the players)."""
+    """True when some answer alphabet is relabelled per question or padded (the transformed named game is no longer
+    won by constant equal answers and in general no longer symmetric under exchanging the players)."""
     if tf is None:
         return False
     return tf["pa"] != tf["pb"] or any(list(s) != sorted(s) for s in tf["sa"]) or any(list(s) != sorted(s) for s in tf["sb"])
